@@ -228,6 +228,7 @@ class Recorder:
             raise _fail("open")
         real = builtins.open(file, mode, *a, **kw)
         self._end("open", path)
+        self.ops[-1]["app"] = "a" in mode        # append: an existing file is not truncated, a missing one is created
         return ProxyFile(self, real, path)
 
     def _rename(self, op, fn, src, dst, **kw):
@@ -300,7 +301,7 @@ def normalise(ops, live):
             if p is not None and p not in names:
                 names[p] = "tmp%d" % (1 + sum(1 for v in names.values() if v.startswith("tmp")))
         e = {"op": o["op"], "path": names[o["path"]], "dst": names.get(o.get("dst"), "-"), "err": o["err"],
-             "done": o.get("done", True), "n": 1, "a": i, "b": i + 1}      # [a, b): the real operations it stands for
+             "done": o.get("done", True), "app": o.get("app", False), "n": 1, "a": i, "b": i + 1}      # [a, b): the real operations it stands for
         if ev and e["op"] == "write" and not e["err"] and ev[-1]["op"] == "write" and not ev[-1]["err"] \
                 and ev[-1]["path"] == e["path"]:
             ev[-1]["n"] += 1
